@@ -76,7 +76,13 @@ func handleExtensionsInits(p *Params) gqlerrors.FormattedErrors {
 
 // handleExtensionsParseDidStart runs the ParseDidStart functions for each extension
 func handleExtensionsParseDidStart(p *Params) ([]gqlerrors.FormattedError, parseFinishFuncHandler) {
-	fs := map[string]ParseFinishFunc{}
+	// finish funcs are kept per extension, in registration order: keying
+	// them by name would drop one of two extensions that share a name
+	type namedFinishFunc struct {
+		name string
+		fn   ParseFinishFunc
+	}
+	fs := []namedFinishFunc{}
 	errs := gqlerrors.FormattedErrors{}
 	for _, ext := range p.Schema.extensions {
 		var (
@@ -93,12 +99,13 @@ func handleExtensionsParseDidStart(p *Params) ([]gqlerrors.FormattedError, parse
 			ctx, finishFn = ext.ParseDidStart(p.Context)
 			// update context
 			p.Context = ctx
-			fs[ext.Name()] = finishFn
+			fs = append(fs, namedFinishFunc{ext.Name(), finishFn})
 		}()
 	}
 	return errs, func(err error) []gqlerrors.FormattedError {
 		errs := gqlerrors.FormattedErrors{}
-		for name, fn := range fs {
+		for _, f := range fs {
+			name, fn := f.name, f.fn
 			func() {
 				// catch panic from a finishFn
 				defer func() {
@@ -115,7 +122,13 @@ func handleExtensionsParseDidStart(p *Params) ([]gqlerrors.FormattedError, parse
 
 // handleExtensionsValidationDidStart notifies the extensions about the start of the validation process
 func handleExtensionsValidationDidStart(p *Params) ([]gqlerrors.FormattedError, validationFinishFuncHandler) {
-	fs := map[string]ValidationFinishFunc{}
+	// finish funcs are kept per extension, in registration order: keying
+	// them by name would drop one of two extensions that share a name
+	type namedFinishFunc struct {
+		name string
+		fn   ValidationFinishFunc
+	}
+	fs := []namedFinishFunc{}
 	errs := gqlerrors.FormattedErrors{}
 	for _, ext := range p.Schema.extensions {
 		var (
@@ -132,12 +145,13 @@ func handleExtensionsValidationDidStart(p *Params) ([]gqlerrors.FormattedError, 
 			ctx, finishFn = ext.ValidationDidStart(p.Context)
 			// update context
 			p.Context = ctx
-			fs[ext.Name()] = finishFn
+			fs = append(fs, namedFinishFunc{ext.Name(), finishFn})
 		}()
 	}
 	return errs, func(errs []gqlerrors.FormattedError) []gqlerrors.FormattedError {
 		extErrs := gqlerrors.FormattedErrors{}
-		for name, finishFn := range fs {
+		for _, f := range fs {
+			name, finishFn := f.name, f.fn
 			func() {
 				// catch panic from a finishFn
 				defer func() {
@@ -154,7 +168,13 @@ func handleExtensionsValidationDidStart(p *Params) ([]gqlerrors.FormattedError, 
 
 // handleExecutionDidStart handles the ExecutionDidStart functions
 func handleExtensionsExecutionDidStart(p *ExecuteParams) ([]gqlerrors.FormattedError, executionFinishFuncHandler) {
-	fs := map[string]ExecutionFinishFunc{}
+	// finish funcs are kept per extension, in registration order: keying
+	// them by name would drop one of two extensions that share a name
+	type namedFinishFunc struct {
+		name string
+		fn   ExecutionFinishFunc
+	}
+	fs := []namedFinishFunc{}
 	errs := gqlerrors.FormattedErrors{}
 	for _, ext := range p.Schema.extensions {
 		var (
@@ -171,12 +191,13 @@ func handleExtensionsExecutionDidStart(p *ExecuteParams) ([]gqlerrors.FormattedE
 			ctx, finishFn = ext.ExecutionDidStart(p.Context)
 			// update context
 			p.Context = ctx
-			fs[ext.Name()] = finishFn
+			fs = append(fs, namedFinishFunc{ext.Name(), finishFn})
 		}()
 	}
 	return errs, func(result *Result) []gqlerrors.FormattedError {
 		extErrs := gqlerrors.FormattedErrors{}
-		for name, finishFn := range fs {
+		for _, f := range fs {
+			name, finishFn := f.name, f.fn
 			func() {
 				// catch panic from a finishFn
 				defer func() {
@@ -193,7 +214,13 @@ func handleExtensionsExecutionDidStart(p *ExecuteParams) ([]gqlerrors.FormattedE
 
 // handleResolveFieldDidStart handles the notification of the extensions about the start of a resolve function
 func handleExtensionsResolveFieldDidStart(exts []Extension, p *executionContext, i *ResolveInfo) ([]gqlerrors.FormattedError, resolveFieldFinishFuncHandler) {
-	fs := map[string]ResolveFieldFinishFunc{}
+	// finish funcs are kept per extension, in registration order: keying
+	// them by name would drop one of two extensions that share a name
+	type namedFinishFunc struct {
+		name string
+		fn   ResolveFieldFinishFunc
+	}
+	fs := []namedFinishFunc{}
 	errs := gqlerrors.FormattedErrors{}
 	for _, ext := range p.Schema.extensions {
 		var (
@@ -210,12 +237,13 @@ func handleExtensionsResolveFieldDidStart(exts []Extension, p *executionContext,
 			ctx, finishFn = ext.ResolveFieldDidStart(p.Context, i)
 			// update context
 			p.Context = ctx
-			fs[ext.Name()] = finishFn
+			fs = append(fs, namedFinishFunc{ext.Name(), finishFn})
 		}()
 	}
 	return errs, func(val interface{}, err error) []gqlerrors.FormattedError {
 		extErrs := gqlerrors.FormattedErrors{}
-		for name, finishFn := range fs {
+		for _, f := range fs {
+			name, finishFn := f.name, f.fn
 			func() {
 				// catch panic from a finishFn
 				defer func() {
